@@ -11,7 +11,9 @@ From Verif Require Import SendReq.Model SendReq.ProofsBound SendReq.ProofsSelect
 (* Every attempt uses up one of the maxReplicaAttempt (10) attempts of some replica; attempts are only ever given back by
    replica.onUpdateLeader(maxRearm), i.e. by a NotLeader answer whose leader hint names an exhausted replica (a "re-arm",
    event ERearm), and each replica is re-armed at most maxRearm = replicas - 1 times (fix cb7d671 of finding F10).
-   Hence, for ALL scripts, budgets and oracle inputs, without any hypothesis: *)
+   Hence, for ALL scripts, budgets and oracle inputs, and from ANY initial cache state — [c_reps] (attempt counters, flags, liveness,
+   slow marks, stale epochs of every replica), the cached leader [c_leader0], a proxy memoised by an earlier call [c_proxy0] —
+   i.e. for every call of a sequence of calls on the same cached region, without any hypothesis: *)
 Theorem C10_bounded : forall c script rands sleeps,
   n_attempts (fst (run c script rands sleeps)) <=
   max_replica_attempt * length (c_reps c) + length (c_reps c) * (length (c_reps c) - 1).
@@ -118,7 +120,7 @@ Print Assumptions C10_backoffs_bounded.
 
 (* --- non-vacuity --------------------------------------------------------------------------------------------- *)
 Definition c_stale_read : cfg := mkCfg RTMixed true true false false false false 100000%N true
-  [fresh_rep Reachable false false false; fresh_rep Reachable false false false; fresh_rep Reachable false false false] false TpTiKV TNever TNever true false.
+  [fresh_rep Reachable false false false; fresh_rep Reachable false false false; fresh_rep Reachable false false false] false TpTiKV TNever TNever true 0 None false.
 (* stale read: DataIsNotReady on the first replica, ServerIsBusy on the leader, RPC error on the last replica *)
 Example ex_stale_read :
   run c_stale_read [ODataIsNotReady; OBusy false; ORpcErr Reachable] [0; 0] [55; 1057]%N =
@@ -128,9 +130,9 @@ Proof. vm_compute. reflexivity. Qed.
 Example ex_no_rearm : n_rearms (fst (run c0 (repeat (ORpcErr Reachable) 40) [] [])) = 0 /\
   n_attempts (fst (run c0 (repeat (ORpcErr Reachable) 40) [] [])) = 12.
 Proof. vm_compute. auto. Qed.
-Example ex_budget : snd (run (mkCfg RTLeader false true false false false false 120%N true (c_reps c0) false TpTiKV TNever TNever true false) (repeat (ORpcErr Reachable) 40) [] [73; 105]%N) = RError.
+Example ex_budget : snd (run (mkCfg RTLeader false true false false false false 120%N true (c_reps c0) false TpTiKV TNever TNever true 0 None false) (repeat (ORpcErr Reachable) 40) [] [73; 105]%N) = RError.
 Proof. vm_compute. reflexivity. Qed.
-Example ex_write : fst (run (mkCfg RTFollower false false false false false false 100000%N true (c_reps c0) false TpTiKV TNever TNever true false) [OStaleCommand] [1] []) =
+Example ex_write : fst (run (mkCfg RTFollower false false false false false false 100000%N true (c_reps c0) false TpTiKV TNever TNever true 0 None false) [OStaleCommand] [1] []) =
   [EAtt 2 false false false; EAtt 1 false false true].
 Proof. vm_compute. reflexivity. Qed.
 (* regression for F10: the lasso now terminates — 4 re-arms (2 per ping-pong replica), then no replica is left *)
@@ -140,24 +142,24 @@ Proof. vm_compute. auto. Qed.
 
 (* forwarding: leader store unreachable from the client, the request goes through replica 1 (ForwardedHost = leader) *)
 Definition c_fwd : cfg := mkCfg RTLeader false true false false false false 100000%N true
-  [fresh_rep Unreachable false false false; fresh_rep Reachable false false false; fresh_rep Reachable false false false] true TpTiKV TNever TNever true false.
+  [fresh_rep Unreachable false false false; fresh_rep Reachable false false false; fresh_rep Reachable false false false] true TpTiKV TNever TNever true 0 None false.
 Example ex_forward : run c_fwd [] [] [] = ([EProxy 1; EAtt 0 false false false], RSuccess 0).
 Proof. vm_compute. reflexivity. Qed.
 (* budget of 120 ms: the third RPC back-off is refused *)
-Example ex_spent : let r := run (mkCfg RTLeader false true false false false false 120%N true (c_reps c0) false TpTiKV TNever TNever true false) (repeat (ORpcErr Reachable) 40) [] [73; 105]%N in
+Example ex_spent : let r := run (mkCfg RTLeader false true false false false false 120%N true (c_reps c0) false TpTiKV TNever TNever true 0 None false) (repeat (ORpcErr Reachable) 40) [] [73; 105]%N in
   snd r = RError /\ tot (fst r) = 178%N /\ n_plain (fst r) = 2%N.
 Proof. vm_compute. auto. Qed.
 
 (* validation gate: a TiFlash-served read with a failing timestamp is refused, a TiDB-served one is exempt by design *)
 Example ex_validate_tp :
-  run (mkCfg RTLeader false true false false false false 100000%N false (c_reps c0) false TpTiFlash TNever TNever true false) [] [] [] = ([], RError) /\
-  snd (run (mkCfg RTLeader false true false false false false 100000%N false (c_reps c0) false TpTiDB TNever TNever true false) [] [] []) = RSuccess 0.
+  run (mkCfg RTLeader false true false false false false 100000%N false (c_reps c0) false TpTiFlash TNever TNever true 0 None false) [] [] [] = ([], RError) /\
+  snd (run (mkCfg RTLeader false true false false false false 100000%N false (c_reps c0) false TpTiDB TNever TNever true 0 None false) [] [] []) = RSuccess 0.
 Proof. vm_compute. auto. Qed.
 
 (* caller cancellation and kill: the call ends with an error, at most one more attempt reaches a client after the cancellation
    (it is answered with the context error), none after an interruptible request saw the kill flag; never a fabricated success *)
-Definition c_cancelled (t : trigger) : cfg := mkCfg RTLeader false true false false false false 100000%N true (c_reps c0) false TpTiKV t TNever true false.
-Definition c_killed (t : trigger) (ir : bool) : cfg := mkCfg RTLeader false true false false false false 100000%N true (c_reps c0) false TpTiKV TNever t ir false.
+Definition c_cancelled (t : trigger) : cfg := mkCfg RTLeader false true false false false false 100000%N true (c_reps c0) false TpTiKV t TNever true 0 None false.
+Definition c_killed (t : trigger) (ir : bool) : cfg := mkCfg RTLeader false true false false false false 100000%N true (c_reps c0) false TpTiKV TNever t ir 0 None false.
 Example ex_cancel :
   run (c_cancelled TPre) [] [] [] = ([EAtt 0 false false false], RError) /\
   run (c_cancelled (TAtt 0)) [ONotLeaderHint 1; OSuccess] [] [] = ([EAtt 0 false false false; EAtt 1 false false true], RError) /\
@@ -170,3 +172,14 @@ Example ex_kill :
   run (c_killed (TAtt 0) false) (repeat (ORpcErr Reachable) 5) [] [52]%N = ([EAtt 0 false false false; EBo BoRPC 52], RError) /\
   run (c_killed (TBo 0) true) (repeat (ORpcErr Reachable) 5) [] [98]%N = ([EAtt 0 false false false; EBo BoRPC 98], RError).
 Proof. vm_compute. auto. Qed.
+
+(* a later call on a region whose cache remembers proxy 1 (memoised by an earlier call) while the leader store stays unreachable and
+   every forwarded attempt gets StaleCommand: the memoised proxy is used once (it must still be a candidate), then replica 2,
+   then the selector gives up — 2 attempts, pseudo region error *)
+Definition c_later_call : cfg := mkCfg RTLeader false true false false false false 100000%N true
+  [fresh_rep Unreachable false false false; fresh_rep Reachable false false false; fresh_rep Reachable false false false]
+  true TpTiKV TNever TNever true 0 (Some 1) false.
+Example ex_memoised_proxy :
+  run c_later_call (repeat OStaleCommand 40) [] [] =
+  ([EProxy 1; EAtt 0 false false false; EProxy 2; EAtt 0 false false true], RPseudo).
+Proof. vm_compute. reflexivity. Qed.
